@@ -27,6 +27,7 @@ use proptest::{
 use serde::{de::DeserializeOwned, Serialize};
 pub use serde_json::{json, Value};
 
+pub mod crashdump;
 pub mod det;
 
 /// Root of the verification directory (`/verif`).
